@@ -96,12 +96,21 @@ struct App : AppSink {
         w.log(Ev::api_init, r.id, int(k), 0, op_kind_name(k));
         return w.h.ops.back();
     }
+    std::map<int, std::vector<size_t>> followups;      // op id -> script entries to execute from inside its completion handler
     OpRec* done(int op, error_code ec) {
-        auto& r = w.h.ops[op];
-        r.completions++;
-        if (r.completions == 1) { r.seq_done = w.next_seq(); r.t_done = w.now(); r.ec = ec; r.depth_at_done = depth; }
-        w.log(Ev::api_done, op, r.completions, depth, std::string(op_kind_name(r.kind)) + " " + ec_name(ec));
-        return &r;
+        {
+            auto& r = w.h.ops[op];
+            r.completions++;
+            if (r.completions == 1) { r.seq_done = w.next_seq(); r.t_done = w.now(); r.ec = ec; r.depth_at_done = depth; }
+            w.log(Ev::api_done, op, r.completions, depth, std::string(op_kind_name(r.kind)) + " " + ec_name(ec));
+        }
+        auto fu = followups.find(op);
+        if (fu != followups.end() && w.h.ops[op].completions == 1 && ec != asio::error::operation_aborted) {
+            // what an application does all the time: start the next request from inside a completion handler
+            auto list = fu->second; followups.erase(fu);
+            for (size_t k : list) { w.log(Ev::note, op, (int)k, 0, "script: follow-up request issued from inside the completion handler"); run.script_op[k] = exec(sc.script[k]); }
+        }
+        return &w.h.ops[op];     // (the vector may have grown)
     }
     void on_dropped(int op) override {
         if (!World::cur) return;
@@ -343,6 +352,7 @@ std::unique_ptr<Execution> execute(const Scenario& sc) {
     std::function<void(size_t)> run_entry = [app, &run, &sc, ioc, &run_entry](size_t i) {
         auto go = [app, &run, &sc, i] {
             run.script_op[i] = app->exec(sc.script[i]);
+            if (run.script_op[i] >= 0) for (size_t k = 0; k < sc.script.size(); ++k) if (sc.script[k].after_script == (int)i) app->followups[run.script_op[i]].push_back(k);
             for (size_t k = i + 1; k < sc.script.size() && sc.script[k].chained; ++k) run.script_op[k] = app->exec(sc.script[k]);
         };
         if (sc.script[i].in_handler) asio::post(*ioc, go); else go();
@@ -350,7 +360,7 @@ std::unique_ptr<Execution> execute(const Scenario& sc) {
     std::map<int, std::vector<size_t>> idle_actions, handler_actions;
     for (size_t i = 0; i < sc.script.size(); ++i) {
         const Action& a = sc.script[i];
-        if (a.chained) continue;
+        if (a.chained || a.after_script >= 0) continue;
         if (a.handler_index >= 0) handler_actions[a.handler_index].push_back(i);
         else if (a.idle_index >= 0) idle_actions[a.idle_index].push_back(i);
         else w.at(a.at, [&run_entry, i] { run_entry(i); });
